@@ -18,16 +18,20 @@
    workrand <n> <graph> <inits> <seed>      random complete schedule drawn from the model: sched=<...>
    workexplore <n> <graph> <inits> <max>    whole state space of the model (all threads, all choices):
        safe_state, strict decrease of phi, deadlock-freedom, final states = everything reachable finished
-   cache <progs> <fvals> <sched>
-       replays on ParCache.cstep, letting a thread run through its invisible (plain access) steps
-       after every scheduled step; answer
-         ok <t>:<op>[+<op>...]/<mask>,... | idle=<bool> fb=<k:n.k:n> psi=<n> inv=ok|FAIL@<k>:<what>
-       ops: ld<k>h|ld<k>m  los<k>  al<k>=<raw done>  lk<k>  fb<k>  fe<k>  as<k>=<raw>  ul<k>
-            ret:D<k>=<v|nil>  ret:G<k>=<v|nil>
-   cacherand <progs> <fvals> <seed>         random complete schedule (at the same granularity): sched=<...>
-   cacheexplore <progs> <fvals> <max>       whole state space at full granularity (plain accesses as
-       separate steps): f at most once per key, no two conflicting plain accesses enabled together,
-       returned values, deadlock-freedom, psi decreases *)
+   workcover <n> <graph> <inits> <max>      a set of complete schedules that together take EVERY transition of the
+       model's reachable state graph at least once:  ok states=.. trans=.. complete=<bool> paths=<k> <sched>;<sched>;...
+   cache <p|i> <progs> <fvals> <deps> <sched>
+       replays on ParCache.cstep.  deps = per key the keys f_k calls Do on (graph syntax), fvals: 0 = f returns nil.
+       Mode p: the plain accesses to e.result are steps of their own (the instrumented copy makes them
+       scheduling points); mode i: a thread runs through them after every scheduled step (fallback).  Answer
+         ok <t>:<op>[+<op>...]/<mask>,... | idle=<bool> fb=<k:n.k:n> inv=ok|FAIL@<k>:<what>
+       ops: ld<k>h|ld<k>m  los<k>  al<k>=<raw done>  lk<k>  fb<k>  nd<k> (f_k starts its next nested Do)  fe<k>
+            pw<k>  as<k>=<raw>  ul<k>  pr<k>  ret:D<k>=<v|nil>  nret:D<k>=<v|nil> (into f)  ret:G<k>=<v|nil>
+   cacherand <p|i> <progs> <fvals> <deps> <seed>    random complete schedule (same granularity): sched=<...>
+   cacheexplore <progs> <fvals> <deps> <max>        whole state space at full granularity: f at most once per key, no
+       two conflicting plain accesses enabled together, returned values, psi decreases; deadlock-freedom when
+       deps is acyclic (for cyclic deps the number of deadlocked states is reported: deadlocks=<n>)
+   cachecover <progs> <fvals> <deps> <max>          as workcover, full granularity *)
 
 let ios = int_of_string
 let split_on c s = if s = "-" || s = "" then [] else String.split_on_char c s
@@ -177,169 +181,348 @@ let do_workexplore n gs inits maxstates =
   if !fail <> "" then "FAIL " ^ !fail
   else Printf.sprintf "ok states=%d trans=%d finals=%d maxdepth=%d complete=%b" !states !trans !finals !maxd (Queue.is_empty q)
 
+
+(* ---- transition cover of a finite state graph given as arrays: succ.(i) = list of (label, target) *)
+let cover_paths (succ : (string * int) list array) : string list list =
+  let n = Array.length succ in
+  let covered = Array.map (fun l -> Array.make (List.length l) false) succ in
+  (* BFS tree from the initial state: prev.(j) = (i, label) *)
+  let prev = Array.make n (-2, "") in
+  prev.(0) <- (-1, "");
+  let order = ref [] in
+  let q = Queue.create () in
+  Queue.add 0 q;
+  while not (Queue.is_empty q) do
+    let i = Queue.pop q in
+    order := i :: !order;
+    List.iter (fun (lab, j) -> if fst prev.(j) = -2 then (prev.(j) <- (i, lab); Queue.add j q)) succ.(i)
+  done;
+  let rec back i acc = let (p, lab) = prev.(i) in if p < 0 then acc else back p (lab :: acc) in
+  let paths = ref [] in
+  List.iter (fun i ->
+    List.iteri (fun k0 _ ->
+      if not covered.(i).(k0) then begin
+        (* tree path to i, then prefer uncovered edges (starting with k0) until a final state *)
+        let path = ref (List.rev (back i [])) in
+        let cur = ref i and first = ref true and steps = ref 0 in
+        while succ.(!cur) <> [] && !steps < 100000 do
+          let l = succ.(!cur) in
+          let k =
+            if !first then k0
+            else begin
+              let idx = ref (-1) in
+              List.iteri (fun k _ -> if !idx < 0 && not covered.(!cur).(k) then idx := k) l;
+              if !idx >= 0 then !idx else 0
+            end in
+          first := false;
+          covered.(!cur).(k) <- true;
+          let (lab, j) = List.nth l k in
+          path := lab :: !path; cur := j; incr steps
+        done;
+        paths := List.rev !path :: !paths
+      end) succ.(i)) (List.rev !order);
+  List.rev !paths
+
+let do_workcover n gs inits maxstates =
+  let g = graph_of gs in
+  let ch = children_of g in
+  let nn = nat_of_int n in
+  let ids = Hashtbl.create 100003 in
+  let key (s : state) = Marshal.to_string s [] in
+  let states = ref [||] and cnt = ref 0 in
+  let buf = ref [] in
+  let add s = let k = key s in
+    match Hashtbl.find_opt ids k with
+    | Some i -> i
+    | None -> let i = !cnt in Hashtbl.add ids k i; incr cnt; buf := (i, s) :: !buf; i in
+  let s0 = init_state nn (nats inits) in
+  ignore (add s0);
+  let succs = Hashtbl.create 100003 in
+  let complete = ref true in
+  let work = Queue.create () in
+  Queue.add (0, s0) work;
+  ignore states;
+  while not (Queue.is_empty work) do
+    let (i, s) = Queue.pop work in
+    if !cnt > maxstates then (complete := false; Queue.clear work)
+    else begin
+      let l = List.map (fun (t, c, s') ->
+        let before = !cnt in
+        let j = add s' in
+        if j >= before then Queue.add (j, s') work;
+        (Printf.sprintf "%d:%d" t c, j)) (work_succs n ch s) in
+      Hashtbl.replace succs i l
+    end
+  done;
+  if not !complete then Printf.sprintf "ok states=%d complete=false paths=0 -" !cnt
+  else begin
+    let arr = Array.init !cnt (fun i -> try Hashtbl.find succs i with Not_found -> []) in
+    let trans = Array.fold_left (fun a l -> a + List.length l) 0 arr in
+    let paths = cover_paths arr in
+    Printf.sprintf "ok states=%d trans=%d complete=true paths=%d %s" !cnt trans (List.length paths)
+      (if paths = [] then "-" else String.concat ";" (List.map dots paths))
+  end
+
 (* ---------------------------------------------------------------- Cache *)
 let call_of s = let k = nat_of_int (ios (String.sub s 1 (String.length s - 1))) in
   match s.[0] with 'D' -> CDo k | 'G' -> CGet k | _ -> failwith "bad call"
 let progs_of s : call list list =
   List.map (fun p -> List.map call_of (split_on '.' p)) (String.split_on_char '/' s)
-let fval_of s : nat -> nat =
-  let a = Array.of_list (ints s) in
-  fun k -> let k = int_of_nat k in nat_of_int (if k < Array.length a then a.(k) else 0)
-let keys_of (progs : call list list) =
-  List.sort_uniq compare (List.concat_map (List.map (function CDo k | CGet k -> int_of_nat k)) progs)
-
 (* the value 0 stands for an f that returns nil *)
-let show_val = function None -> "nil" | Some v -> if int_of_nat v = 0 then "nil" else string_of_int (int_of_nat v)
-let cmask fv nthr (s : cstate) =
-  let m = ref 0 in
-  for t = 0 to nthr - 1 do if cenabled fv s (nat_of_int t) then m := !m lor (1 lsl t) done; !m
+let fval_of s : nat -> nat option =
+  let a = Array.of_list (ints s) in
+  fun k -> let k = int_of_nat k in
+    let v = if k < Array.length a then a.(k) else 0 in
+    if v = 0 then None else Some (nat_of_int v)
+let deps_of s : int list array = graph_of s
+let depsf (d : int list array) : nat -> nat list = children_of d
+let keys_of (progs : call list list) (d : int list array) =
+  let seen = Hashtbl.create 16 in
+  let rec go k = if not (Hashtbl.mem seen k) then begin
+    Hashtbl.add seen k (); if k < Array.length d then List.iter go d.(k) end in
+  List.iter (List.iter (function CDo k | CGet k -> go (int_of_nat k))) progs;
+  List.sort compare (Hashtbl.fold (fun k _ a -> k :: a) seen [])
+(* level function (longest path); None if the dependency relation has a cycle *)
+let levels (d : int list array) : (int -> int) option =
+  let n = Array.length d in
+  let lv = Array.make n (-1) and onstack = Array.make n false and cyc = ref false in
+  let rec go k =
+    if k >= n then 0
+    else if lv.(k) >= 0 then lv.(k)
+    else if onstack.(k) then (cyc := true; 0)
+    else begin
+      onstack.(k) <- true;
+      let m = List.fold_left (fun a x -> max a (1 + go x)) 0 d.(k) in
+      onstack.(k) <- false; lv.(k) <- m; m
+    end in
+  for k = 0 to n - 1 do ignore (go k) done;
+  if !cyc then None else Some (fun k -> if k < n then lv.(k) else 0)
 
-(* the op string of the step thread t takes from s to s' *)
-let cache_op (s : cstate) (s' : cstate) (t : int) : string =
+let show_val = function None -> "nil" | Some v -> string_of_int (int_of_nat v)
+let cmask fv dp nthr (s : cstate) =
+  let m = ref 0 in
+  for t = 0 to nthr - 1 do if cenabled fv dp s (nat_of_int t) then m := !m lor (1 lsl t) done; !m
+
+(* the op tokens of the step thread t takes from s to s' *)
+let cache_ops dp (s : cstate) (s' : cstate) (t : int) : string list =
   let th = List.nth s.thrs t and th' = List.nth s'.thrs t in
   let i = int_of_nat in
-  let retstr () = match th'.rets with
-    | (CDo k, v) :: _ -> Printf.sprintf "ret:D%d=%s" (i k) (show_val v)
-    | (CGet k, v) :: _ -> Printf.sprintf "ret:G%d=%s" (i k) (show_val v)
-    | [] -> "ret:?" in
-  let returned = List.length th'.rets > List.length th.rets in
+  let retstr () =
+    if List.length th'.rets > List.length th.rets then
+      (match th'.rets with
+       | (CDo k, v) :: _ -> [Printf.sprintf "ret:D%d=%s" (i k) (show_val v)]
+       | (CGet k, v) :: _ -> [Printf.sprintf "ret:G%d=%s" (i k) (show_val v)]
+       | [] -> [])
+    else if List.length th'.nrets > List.length th.nrets then
+      (match th'.nrets with (k, v) :: _ -> [Printf.sprintf "nret:D%d=%s" (i k) (show_val v)] | [] -> [])
+    else [] in
   match th.tpc with
-  | DLoad k -> Printf.sprintf "ld%d%s" (i k) (if (s.ents k).present then "h" else "m")
-  | DLoadOrStore k -> Printf.sprintf "los%d" (i k)
-  | DLoad1 k | DLoad2 k -> Printf.sprintf "al%d=%d" (i k) (i (s.ents k).done0)
-  | DLock k -> Printf.sprintf "lk%d" (i k)
-  | DCall k -> Printf.sprintf "fb%d" (i k)
-  | DInF k -> Printf.sprintf "fe%d" (i k)
-  | DWrite (_, _) -> ""            (* plain write: not observable *)
-  | DStore k -> Printf.sprintf "as%d=%d" (i k) (i (s'.ents k).done0)
-  | DUnlock k -> Printf.sprintf "ul%d" (i k)
-  | DRead _ | GRead _ -> retstr ()
-  | GLoad k -> Printf.sprintf "ld%d%s%s" (i k) (if (s.ents k).present then "h" else "m") (if returned then "+" ^ retstr () else "")
-  | GLoad1 k -> Printf.sprintf "al%d=%d%s" (i k) (i (s.ents k).done0) (if returned then "+" ^ retstr () else "")
-  | Idle -> "?"
+  | DLoad k -> [Printf.sprintf "ld%d%s" (i k) (if (s.ents k).present then "h" else "m")]
+  | DLoadOrStore k -> [Printf.sprintf "los%d" (i k)]
+  | DLoad1 k | DLoad2 k -> [Printf.sprintf "al%d=%d" (i k) (i (s.ents k).done0)]
+  | DLock k -> [Printf.sprintf "lk%d" (i k)]
+  | DCall k -> [Printf.sprintf "fb%d" (i k)]
+  | DInF (k, _) -> (match th'.tpc with DWrite (_, _) -> [Printf.sprintf "fe%d" (i k)] | _ -> [Printf.sprintf "nd%d" (i k)])
+  | DWrite (k, _) -> [Printf.sprintf "pw%d" (i k)]
+  | DStore k -> [Printf.sprintf "as%d=%d" (i k) (i (s'.ents k).done0)]
+  | DUnlock k -> [Printf.sprintf "ul%d" (i k)]
+  | DRead k | GRead k -> Printf.sprintf "pr%d" (i k) :: retstr ()
+  | GLoad k -> Printf.sprintf "ld%d%s" (i k) (if (s.ents k).present then "h" else "m") :: retstr ()
+  | GLoad1 k -> Printf.sprintf "al%d=%d" (i k) (i (s.ents k).done0) :: retstr ()
+  | Idle -> ["?"]
 
-(* one scheduled step of t followed by its invisible steps *)
-let cache_macro fv (s : cstate) (t : int) : (cstate * string) option =
-  match cstep fv s (nat_of_int t) with
+let is_plain_tok s = String.length s >= 2 && s.[0] = 'p' && (s.[1] = 'w' || s.[1] = 'r')
+
+(* one scheduled step of t; in mode i followed by its invisible (plain access) steps, whose pw/pr tokens are dropped *)
+let cache_macro visible fv dp (s : cstate) (t : int) : (cstate * string) option =
+  match cstep fv dp s (nat_of_int t) with
   | None -> None
   | Some s1 ->
-      let ops = ref [cache_op s s1 t] and cur = ref s1 in
-      let continue = ref true in
-      while !continue do
-        let th = List.nth !cur.thrs t in
-        if invisible th.tpc then
-          (match cstep fv !cur (nat_of_int t) with
-           | Some s2 -> let o = cache_op !cur s2 t in if o <> "" then ops := o :: !ops; cur := s2
-           | None -> continue := false)
-        else continue := false
-      done;
-      Some (!cur, String.concat "+" (List.rev !ops))
+      let ops = ref (cache_ops dp s s1 t) and cur = ref s1 in
+      if not visible then begin
+        let continue = ref true in
+        while !continue do
+          let th = List.nth !cur.thrs t in
+          if invisible th.tpc then
+            (match cstep fv dp !cur (nat_of_int t) with
+             | Some s2 -> ops := !ops @ cache_ops dp !cur s2 t; cur := s2
+             | None -> continue := false)
+          else continue := false
+        done;
+        ops := List.filter (fun o -> not (is_plain_tok o)) !ops
+      end;
+      Some (!cur, String.concat "+" !ops)
 
-let cache_tail progs (s : cstate) inv =
-  Printf.sprintf "idle=%b fb=%s psi=%d inv=%s" (all_idle s)
-    (dots (List.map (fun k -> Printf.sprintf "%d:%d" k (int_of_nat (s.ents (nat_of_int k)).fbegins)) (keys_of progs)))
-    (int_of_nat (psi s)) inv
+let cache_tail progs d (s : cstate) inv =
+  Printf.sprintf "idle=%b fb=%s inv=%s" (all_idle s)
+    (dots (List.map (fun k -> Printf.sprintf "%d:%d" k (int_of_nat (s.ents (nat_of_int k)).fbegins)) (keys_of progs d)))
+    inv
 
-let cache_check progs (s : cstate) : string =
+let cache_check progs d (s : cstate) : string =
   let bad = ref "" in
   List.iter (fun k -> let e = s.ents (nat_of_int k) in
     if int_of_nat e.fbegins > 1 then bad := "f-twice";
-    if int_of_nat e.fends > int_of_nat e.fbegins then bad := "fends") (keys_of progs);
+    if int_of_nat e.fends > int_of_nat e.fbegins then bad := "fends") (keys_of progs d);
   !bad
 
-let do_cache ps fvs sched =
+let psi_of d : (cstate -> int) option =
+  match levels d with
+  | None -> None
+  | Some lv ->
+      let kc = kcL (depsf d) (fun k -> nat_of_int (lv (int_of_nat k))) in
+      Some (fun s -> int_of_nat (psi (depsf d) kc s))
+
+let do_cache mode ps fvs ds sched =
+  let visible = (mode = "p") in
   let progs = progs_of ps in
   let fv = fval_of fvs in
+  let d = deps_of ds in
+  let dp = depsf d in
   let nthr = List.length progs in
+  let psif = psi_of d in
   let s = ref (cinit progs) in
   let evs = ref [] and inv = ref "ok" and bad = ref (-1) in
   List.iteri (fun k t ->
     if !bad < 0 then
-      match cache_macro fv !s t with
+      match cache_macro visible fv dp !s t with
       | None -> bad := k
       | Some (s', ops) ->
           if !inv = "ok" then begin
-            if not (int_of_nat (psi s') < int_of_nat (psi !s)) then inv := Printf.sprintf "FAIL@%d:psi" k;
-            let c = cache_check progs s' in if c <> "" then inv := Printf.sprintf "FAIL@%d:%s" k c
+            (match psif with
+             | Some f -> if not (f s' < f !s) then inv := Printf.sprintf "FAIL@%d:psi" k
+             | None -> ());
+            let c = cache_check progs d s' in if c <> "" then inv := Printf.sprintf "FAIL@%d:%s" k c
           end;
-          evs := Printf.sprintf "%d:%s/%d" t ops (cmask fv nthr s') :: !evs;
+          evs := Printf.sprintf "%d:%s/%d" t ops (cmask fv dp nthr s') :: !evs;
           s := s') (ints sched);
   if !bad >= 0 then Printf.sprintf "bad %d" !bad
-  else Printf.sprintf "ok %s | %s" (if !evs = [] then "-" else String.concat "," (List.rev !evs)) (cache_tail progs !s !inv)
+  else Printf.sprintf "ok %s | %s" (if !evs = [] then "-" else String.concat "," (List.rev !evs)) (cache_tail progs d !s !inv)
 
-let do_cacherand ps fvs seed =
+let do_cacherand mode ps fvs ds seed =
+  let visible = (mode = "p") in
   let progs = progs_of ps in
   let fv = fval_of fvs in
+  let dp = depsf (deps_of ds) in
   let nthr = List.length progs in
   rng_seed seed;
   let s = ref (cinit progs) in
   let sch = ref [] and stop = ref false in
   while not !stop do
-    let en = List.filter (fun t -> cenabled fv !s (nat_of_int t)) (List.init nthr (fun t -> t)) in
+    let en = List.filter (fun t -> cenabled fv dp !s (nat_of_int t)) (List.init nthr (fun t -> t)) in
     match en with
     | [] -> stop := true
     | l -> let t = List.nth l (rng_int (List.length l)) in
-           (match cache_macro fv !s t with
+           (match cache_macro visible fv dp !s t with
             | Some (s', _) -> s := s'; sch := string_of_int t :: !sch
             | None -> stop := true)
   done;
   Printf.sprintf "sched=%s idle=%b" (dots (List.rev !sch)) (all_idle !s)
 
-let cstate_key progs (s : cstate) : string =
-  Marshal.to_string (s.thrs, List.map (fun k -> s.ents (nat_of_int k)) (keys_of progs)) []
+let cstate_key progs d (s : cstate) : string =
+  Marshal.to_string (List.map (fun th -> (th.tpc, th.stack, th.rest, th.rets, th.nrets)) s.thrs,
+                     List.map (fun k -> s.ents (nat_of_int k)) (keys_of progs d)) []
 
-let do_cacheexplore ps fvs maxstates =
+let cache_succs fv dp nthr (s : cstate) =
+  List.filter_map (fun t -> match cstep fv dp s (nat_of_int t) with Some s' -> Some (t, s') | None -> None)
+    (List.init nthr (fun t -> t))
+
+let do_cacheexplore ps fvs ds maxstates =
   let progs = progs_of ps in
   let fv = fval_of fvs in
+  let d = deps_of ds in
+  let dp = depsf d in
   let nthr = List.length progs in
+  let psif = psi_of d in
   let seen = Hashtbl.create 100003 in
   let q = Queue.create () in
   let s0 = cinit progs in
-  Hashtbl.add seen (cstate_key progs s0) (); Queue.add (s0, []) q;
-  let states = ref 0 and trans = ref 0 and finals = ref 0 and fail = ref "" in
+  Hashtbl.add seen (cstate_key progs d s0) (); Queue.add (s0, []) q;
+  let states = ref 0 and trans = ref 0 and finals = ref 0 and deadlocks = ref 0 and fail = ref "" in
   let show path = dots (List.rev_map string_of_int path) in
   let access (p : cpc) = match p with
     | DWrite (k, _) -> Some (int_of_nat k, true) | DRead k | GRead k -> Some (int_of_nat k, false) | _ -> None in
   while !fail = "" && not (Queue.is_empty q) && !states < maxstates do
     let (s, path) = Queue.pop q in
     incr states;
-    let c = cache_check progs s in
+    let c = cache_check progs d s in
     if c <> "" then fail := c ^ " " ^ show path;
-    (* race: two threads with conflicting plain accesses pending *)
     let acc = List.mapi (fun t th -> (t, access th.tpc)) s.thrs in
     List.iter (fun (a, xa) -> List.iter (fun (b, xb) ->
       match xa, xb with
       | Some (ka, wa), Some (kb, wb) when a < b && ka = kb && (wa || wb) -> fail := "race " ^ show path
       | _ -> ()) acc) acc;
-    (* returned values *)
-    List.iter (fun th -> List.iter (fun (c, v) ->
-      match c, v with
-      | CDo k, Some v when v = fv k -> ()
-      | CDo _, _ -> fail := "do-value " ^ show path
-      | CGet _, None -> ()
-      | CGet k, Some v when v = fv k && int_of_nat (s.ents k).fends = 1 -> ()
-      | CGet _, _ -> fail := "get-value " ^ show path) th.rets) s.thrs;
-    let succs = List.filter_map (fun t -> match cstep fv s (nat_of_int t) with Some s' -> Some (t, s') | None -> None)
-        (List.init nthr (fun t -> t)) in
+    List.iter (fun th ->
+      List.iter (fun (c, v) ->
+        match c, v with
+        | CDo k, v when v = fv k -> ()
+        | CDo _, _ -> fail := "do-value " ^ show path
+        | CGet _, None -> ()
+        | CGet k, v when v = fv k && int_of_nat (s.ents k).fends = 1 -> ()
+        | CGet _, _ -> fail := "get-value " ^ show path) th.rets;
+      List.iter (fun (k, v) -> if v <> fv k then fail := "nested-do-value " ^ show path) th.nrets) s.thrs;
+    let succs = cache_succs fv dp nthr s in
     if succs = [] then begin
       incr finals;
-      if not (all_idle s) then fail := "deadlock " ^ show path
+      if not (all_idle s) then begin
+        incr deadlocks;
+        if psif <> None then fail := "deadlock " ^ show path
+      end
     end;
-    let ps = int_of_nat (psi s) in
     List.iter (fun (t, s') ->
       incr trans;
-      if not (int_of_nat (psi s') < ps) then fail := "psi " ^ show (t :: path);
-      let k = cstate_key progs s' in
+      (match psif with Some f -> if not (f s' < f s) then fail := "psi " ^ show (t :: path) | None -> ());
+      let k = cstate_key progs d s' in
       if not (Hashtbl.mem seen k) then (Hashtbl.add seen k (); Queue.add (s', t :: path) q)) succs
   done;
   if !fail <> "" then "FAIL " ^ !fail
-  else Printf.sprintf "ok states=%d trans=%d finals=%d complete=%b" !states !trans !finals (Queue.is_empty q)
+  else Printf.sprintf "ok states=%d trans=%d finals=%d deadlocks=%d complete=%b" !states !trans !finals !deadlocks (Queue.is_empty q)
+
+let do_cachecover ps fvs ds maxstates =
+  let progs = progs_of ps in
+  let fv = fval_of fvs in
+  let d = deps_of ds in
+  let dp = depsf d in
+  let nthr = List.length progs in
+  let ids = Hashtbl.create 100003 in
+  let cnt = ref 0 in
+  let add s = let k = cstate_key progs d s in
+    match Hashtbl.find_opt ids k with
+    | Some i -> i
+    | None -> let i = !cnt in Hashtbl.add ids k i; incr cnt; i in
+  let s0 = cinit progs in
+  ignore (add s0);
+  let succs = Hashtbl.create 100003 in
+  let complete = ref true in
+  let work = Queue.create () in
+  Queue.add (0, s0) work;
+  while not (Queue.is_empty work) do
+    let (i, s) = Queue.pop work in
+    if !cnt > maxstates then (complete := false; Queue.clear work)
+    else begin
+      let l = List.map (fun (t, s') ->
+        let before = !cnt in
+        let j = add s' in
+        if j >= before then Queue.add (j, s') work;
+        (string_of_int t, j)) (cache_succs fv dp nthr s) in
+      Hashtbl.replace succs i l
+    end
+  done;
+  if not !complete then Printf.sprintf "ok states=%d complete=false paths=0 -" !cnt
+  else begin
+    let arr = Array.init !cnt (fun i -> try Hashtbl.find succs i with Not_found -> []) in
+    let trans = Array.fold_left (fun a l -> a + List.length l) 0 arr in
+    let paths = cover_paths arr in
+    Printf.sprintf "ok states=%d trans=%d complete=true paths=%d %s" !cnt trans (List.length paths)
+      (if paths = [] then "-" else String.concat ";" (List.map dots paths))
+  end
 
 let () = serve (function
   | ["work"; n; g; i; sch] -> do_work (ios n) g i sch
   | ["workrand"; n; g; i; seed] -> do_workrand (ios n) g i (ios seed)
   | ["workexplore"; n; g; i; m] -> do_workexplore (ios n) g i (ios m)
-  | ["cache"; p; f; sch] -> do_cache p f sch
-  | ["cacherand"; p; f; seed] -> do_cacherand p f (ios seed)
-  | ["cacheexplore"; p; f; m] -> do_cacheexplore p f (ios m)
+  | ["workcover"; n; g; i; m] -> do_workcover (ios n) g i (ios m)
+  | ["cache"; mode; p; f; d; sch] -> do_cache mode p f d sch
+  | ["cacherand"; mode; p; f; d; seed] -> do_cacherand mode p f d (ios seed)
+  | ["cacheexplore"; p; f; d; m] -> do_cacheexplore p f d (ios m)
+  | ["cachecover"; p; f; d; m] -> do_cachecover p f d (ios m)
   | _ -> "BAD-REQUEST")
